@@ -101,6 +101,8 @@ func (E *Engine) solveAll(cfg runCfg) []*OblResult {
 			}
 			j.res = Solve(j.q, tmo, cfg.Seed, j.o.Z3Ext || strings.Contains(j.q, "(_ map "), false)
 			if j.res.Status == "unsat" {
+				j.q = "" // only failing queries are kept (memory: thousands of path instances)
+				j.res.Output = ""
 				return
 			}
 			if tmo != cfg.TimeoutS {
